@@ -289,7 +289,9 @@ def einsum(*operands, dtype=None, optimize=False, split_every=None, **kwargs):
     if ncontract_inds > 0:
         size = len(outputs)
         return result.sum(
-            axis=list(range(size, size + ncontract_inds)), split_every=split_every
+            axis=list(range(size, size + ncontract_inds)),
+            dtype=dtype,
+            split_every=split_every,
         )
 
     return result
